@@ -184,7 +184,7 @@ P = {
          "consistent schedules), vh_C20_htpasswd_reload/_usermap_reload (failed reload keeps old contents, successful "
          "reload replaces completely), vh_C20_watcher_events (every kind of change of the watched file triggers exactly one "
          "synchronous reload).",
-         "2 threads, 1 reload; sync/atomic semantics axiomatised; fsnotify's event delivery and file-system atomicity "
+         "2 threads, 1 to 3 reloads; sync/atomic semantics axiomatised; fsnotify's event delivery and file-system atomicity "
          "outside (vh_C20_watcher_events starts at filterEvent)"),
 }
 
@@ -239,14 +239,32 @@ ADD2 = {
  'C20': "vh_C07_injector_race (one header injector under two concurrent requests).",
 }
 
+ADD3 = {
+ 'C01': "vh_C01_jwt_every_request (the bearer loader as installed, over request sequences), vh_C16_routes (no forwarding-style header changes a bypass decision with reverse-proxy off), vh_C10_load_order, vh_C15_parse_ipnet.",
+ 'C03': "vh_C03_newcsrf_race (two concurrent login starts share no mutable state and get distinct states/nonces); vh_C03_flow_single also checks the link of every callback error page.",
+ 'C04': "vh_C01_jwt_every_request, vh_C01_load_jwt.",
+ 'C05': "vh_C03_newcsrf_race.",
+ 'C06': "vh_C03_flow_single (callback error pages link where the redirect director says).",
+ 'C07': "vh_C07_groups_twice (several headers from one multi-valued claim; the session is not modified), vh_C07_proxy_wiring through the real buildHeadersChain with a strip-only header.",
+ 'C09': "vh_C04_create_session (the session's lifetime starts on the proxy's clock whatever the ID token's iat, identity-provider clock off by up to ten minutes), vh_C01_jwt_every_request.",
+ 'C10': "unstamped sessions (nil or zero creation time), hyphenated and dotted cookie names in vh_C10_cookie_roundtrip / vh_C10_manager_history.",
+ 'C12': "vh_C05_nonce (a typed expiry error from the verifier never lets a session through).",
+ 'C14': "vh_C08_validator.",
+ 'C15': "vh_C15_parse_ipnet (trusted-network entries: host bits are refused, never widened).",
+ 'C16': "the gate harnesses (Proxy, AuthOnly) with client-sent forwarding headers; vh_C16_routes over seven more forwarding-style headers and the whole bypass decision.",
+ 'C17': "vh_C01_dispatch (paths that merely share the proxy prefix string reach the Proxy gate).",
+ 'C18': "vh_C12_seq (the refresh save sees the request's scope: the request scope travels with contexts as in the real code).",
+ 'C19': "vh_C10_manager_history.",
+}
+
 
 def main():
     old = json.load(open(os.path.join(V, 'MANIFEST.json')))
     checks = []
     for pid in sorted(P):
         text, note = P[pid]
-        if pid in ADD or pid in ADD2:
-            text = text + " Added later: " + (ADD.get(pid, '') + ' ' + ADD2.get(pid, '')).strip()
+        if pid in ADD or pid in ADD2 or pid in ADD3:
+            text = text + " Added later: " + ' '.join(x for x in (ADD.get(pid, ''), ADD2.get(pid, ''), ADD3.get(pid, '')) if x)
         checks.append({
             "property_id": pid,
             "quick_cmd": "./check %s --tier quick" % pid,
@@ -267,7 +285,7 @@ def main():
     names = {l.split('\t')[0] for l in out.splitlines() if l.startswith('vh_')}
     import re
     for pid, (text, _) in P.items():
-        text = text + ADD.get(pid, '') + ADD2.get(pid, '')
+        text = text + ADD.get(pid, '') + ADD2.get(pid, '') + ADD3.get(pid, '')
         for m in re.findall(r'vh_C\d\d_[a-z0-9_]+', text):
             m = m.rstrip('_')
             if not any(n == m or n.startswith(m) for n in names):
